@@ -1,4 +1,5 @@
 import GlyModel.Generated.Tables
+import GlyModel.Smiles.Graph
 /-
   C08 — The monosaccharide library is stereochemically coherent. (Property theorems only.)
   Table theorems are decided by the kernel over the *complete* regenerated tables.
@@ -62,6 +63,78 @@ def plainRowOk (t : List MonoRow) (r : MonoRow) : Bool :=
 
 theorem C08_plain_rows_pyranose : pyranoseTable.all (plainRowOk pyranoseTable) = true := by decide +kernel
 theorem C08_plain_rows_furanose : furanoseTable.all (plainRowOk furanoseTable) = true := by decide +kernel
+
+open Gly.Smi in
+/-- Graph-level clause: for every comparable `A_`/`B_` pair both rows denote molecules (`sem` succeeds), with the same bond
+    events, whose atom lists differ at exactly one atom – and that atom is the hemiacetal (hemiketal) carbon: a carbon with
+    exactly two oxygen neighbours, i.e. the anomeric carbon. -/
+def anomerOnHemiacetal (t : List MonoRow) (r : MonoRow) : Bool :=
+  match r.key with
+  | 'A' :: '_' :: code =>
+    match rowOf t ('B' :: '_' :: code) with
+    | some b =>
+      match semOfChars r.smiles, semOfChars b.smiles with
+      | some ma, some mb =>
+        ma.evs == mb.evs &&
+        (match diffAtoms ma.atoms mb.atoms with
+         | [k] => isHemiacetalCarbon ma k
+         | _ => false)
+      | _, _ => false
+    | none => false
+  | _ => true
+
+theorem C08_anomeric_centre_pyranose :
+    (pyranoseTable.filter (fun r => !(notComparable pyranoseTable).contains (r.key.drop 2))).all (anomerOnHemiacetal pyranoseTable) = true := by
+  decide +kernel
+
+theorem C08_anomeric_centre_furanose :
+    (furanoseTable.filter (fun r => !(notComparable furanoseTable).contains (r.key.drop 2))).all (anomerOnHemiacetal furanoseTable) = true := by
+  decide +kernel
+
+/-- erase stereo marks and the brackets that only existed to carry them: `[C@H]`, `[C@@H]`, `[CH]` ↦ `C`; `[C@]`, `[C@@]` ↦ `C` -/
+def stripStereo : List Char → List Char
+  | '[' :: 'C' :: '@' :: '@' :: 'H' :: ']' :: rest => 'C' :: stripStereo rest
+  | '[' :: 'C' :: '@' :: 'H' :: ']' :: rest => 'C' :: stripStereo rest
+  | '[' :: 'C' :: '@' :: '@' :: ']' :: rest => 'C' :: stripStereo rest
+  | '[' :: 'C' :: '@' :: ']' :: rest => 'C' :: stripStereo rest
+  | c :: rest => c :: stripStereo rest
+  | [] => []
+
+open Gly.Smi in
+/-- "Erasing that single centre gives the form without anomer": for every code whose plain row is written in the same atom
+    order as its `A_` row, the two denote the same bonds and differ in exactly one atom – the hemiacetal carbon – which
+    carries no stereo mark in the plain row. -/
+def eraseGivesPlain (t : List MonoRow) (r : MonoRow) : Bool :=
+  match r.key with
+  | 'A' :: '_' :: code =>
+    match rowOf t code with
+    | some p =>
+      if stripStereo r.smiles != stripStereo p.smiles then true      -- written in another order: compared as molecules by the sweep
+      else match semOfChars r.smiles, semOfChars p.smiles with
+        | some ma, some mp =>
+          ma.evs == mp.evs &&
+          (match diffAtoms ma.atoms mp.atoms with
+           | [k] => isHemiacetalCarbon ma k && !(mp.atoms.getD k []).contains '@'
+           | _ => false)
+        | _, _ => false
+    | none => false
+  | _ => true
+
+theorem C08_erase_gives_plain : pyranoseTable.all (eraseGivesPlain pyranoseTable) = true ∧ furanoseTable.all (eraseGivesPlain furanoseTable) = true := by
+  decide +kernel
+
+/-- how many codes that clause actually covers (written in the same order): non-vacuity -/
+theorem C08_erase_coverage :
+    (pyranoseTable.filter (fun r => match r.key with
+      | 'A' :: '_' :: code => (match rowOf pyranoseTable code with | some p => stripStereo r.smiles == stripStereo p.smiles | none => false)
+      | _ => false)).length ≥ 30 := by
+  decide +kernel
+
+open Gly.Smi in
+/-- Every row of the three tables is a SMILES of the modelled subset and denotes a finished molecule. -/
+theorem C08_all_rows_denote :
+    (pyranoseTable ++ furanoseTable ++ openTable).all (fun r => (semOfChars r.smiles).isSome) = true := by
+  decide +kernel
 
 /-- Keys are unique in each table, the ring-form flag is the table's, open rows carry no anomer and (but for inositol) no ring. -/
 theorem C08_tables_wellformed :
